@@ -261,7 +261,19 @@ def ts_zoo(rng, ids, style):
     return Unit(lines, [], "ts_zoo_" + style)
 
 
-TS_UNITS = [(ts_nest, ["plain", "multiline", "export"]), (ts_srp, ["plain", "export", "decorated_export"]), (ts_magic, ["plain", "multiline"]), (ts_print, ["plain"]),
+def ts_consts(rng, ids, style):
+    """module-level constants with fixed names: two files of a project that both hold this unit define the same constants (the
+    duplicate-constants detector then has something to locate), one per line or several declarators in one statement"""
+    if style == "multiline":
+        lines = ["export const", "  API_TIMEOUT_MS = 30000,", "  RETRY_LIMIT = 5;"]
+    elif style == "trailing":
+        lines = ["const API_TIMEOUT_MS = 30000, RETRY_LIMIT =", "  5;"]
+    else:
+        lines = ["export const API_TIMEOUT_MS = 30000;", "export const RETRY_LIMIT = 5;"]
+    return Unit(lines, [], "ts_consts_" + style)
+
+
+TS_UNITS = [(ts_consts, ["plain", "multiline", "multiline", "trailing"]), (ts_nest, ["plain", "multiline", "export"]), (ts_srp, ["plain", "export", "decorated_export"]), (ts_magic, ["plain", "multiline"]), (ts_print, ["plain"]),
             (ts_filler, ["plain"]), (ts_loc_edge, ["plain"]), (ts_zoo, ["generics", "fluent", "async", "objects"])]
 
 
